@@ -569,17 +569,26 @@ def prover_origin_rules(ck, prog, sg, tags):
             flds = {fl for (adt, fl) in gg.fields_in(arg_prod(gq, b, 3))}
             ck.ob("E3.used", "P:draw-integers-nonce", "pow_nonce" in flds,
                   "query positions are drawn with the channel's pow_nonce", loc=gq.loc(b, "T"))
-    gr = prog.fn("winter_prover::channel::ProverChannel::grind_query_seed")
+    from . import vguards as V
+    gr = prog.fn(V.GRIND)
     ggr = flow(gr)
+    scope = V.nonce_search_scope(prog)
+    scope_names = {c.nname for c in scope}
+    pred_ok = any(coin_event(c, b2, t2) == "POW" for c in scope for b2, t2 in c.calls())
     wrote = False
     for b, i, s in gr.assigns():
         flds = [e for e in s["lhs"].get("p", []) if isinstance(e, dict) and e.get("n") == "pow_nonce"]
         if flds and s["rv"]["k"] == "use":
             sl = ggr.walk(ops=[s["rv"]["a"]], at=(b, i))
-            cl = [prog.fns[c] for c in gr.closure_locals.values() if c in prog.fns]
-            clos_blocks = {bb for bb, tt in gr.calls() if gr.closure_args(tt)}
-            pred_ok = any(coin_event(c, b2, t2) == "POW" for c in cl for b2, t2 in c.calls())
-            wrote = pred_ok and any(nd[0] == "c" and nd[1] in clos_blocks for nd in sl)
+            # the stored value is produced by the search: a call that takes a closure of the search, or a call of a search helper
+            produced = False
+            for nd in sl:
+                if nd[0] != "c":
+                    continue
+                tt = gr.term(nd[1])
+                if any(cid in {c.id for c in scope} for cid in gr.closure_args(tt)) or callee_name(tt) in scope_names:
+                    produced = True
+            wrote = wrote or (pred_ok and produced)
     ck.ob("E3.used", "P:pow-nonce-stored", wrote,
           "the nonce stored in the channel is the one found by the check_leading_zeros search", loc=gr.loc())
 
